@@ -283,7 +283,8 @@ inline Op opColAnalog(const std::string& dev, int vs, const Limits& L) {
         else if (dev == "nocol") names = {};
         else names = {fresh(0)};
         size_t cnt = n; if (dev == "fewer") cnt = n - 1; if (dev == "more") cnt = n + 1; if (dev == "none") cnt = 0;
-        size_t nsub = s.o.h.subPerFrame; if (dev == "sub_fewer") nsub--; if (dev == "sub_more") nsub++;
+        size_t nsub = s.o.h.subPerFrame; { Shape cur = declaredShape(s.o); bool filled = false; for (auto& f : s.o.frames) if (!f.empty()) filled = true; if (filled && cur.nsub > 0) nsub = cur.nsub; }   // what the data set really holds
+        if (dev == "sub_fewer") nsub--; if (dev == "sub_more") nsub++;
         std::vector<Frame> fr;
         for (size_t f = 0; f < cnt; ++f) {
             Shape sh; sh.chans = names; sh.nsub = nsub; if (dev == "ragged" && f + 1 == cnt) sh.chans.pop_back();
@@ -393,6 +394,28 @@ inline Op opEditStored(size_t fi, const std::string& what) {   // edit a stored 
         ci.kind = K_EDIT_STORED; ci.editFrame = fi;
         if (what == "px") w.c->data().frame(fi).points_nonConst().point_nonConst(0).x(-777.5f);
         else w.c->data().frame(fi).analogs_nonConst().subframe_nonConst(0).channel_nonConst(0).data(-888.5f);
+    };
+    return o;
+}
+// a points-only stored frame gets a sub-frame through the public non-const accessors; only THAT frame may change
+inline Op opStoredAddSubframe(size_t fi) {
+    Op o; o.name = "stored[" + std::to_string(fi) + "].addSubframe"; o.cls = "stored.grow";
+    o.enabled = [fi](const World&, const WSnap& s) { return fi < s.o.frames.size() && s.o.frames[fi].subs.empty() && !s.o.frames[fi].pts.empty(); };
+    o.apply = [fi](World& w, const WSnap&, CallInfo& ci) { ci.kind = K_EDIT_STORED; ci.editFrame = fi; SubFrame sf; Channel ch; ch.name("grown"); ch.data(12.5f); sf.channel(ch); w.c->data().frame(fi).analogs_nonConst().subframe(sf); };
+    return o;
+}
+inline Op opRegAddSubframe(int r) {
+    Op o; o.name = "R" + std::to_string(r) + ".addSubframe"; o.cls = "reg.grow";
+    o.enabled = [r](const World& w, const WSnap& s) { return w.Rset[r] && s.reg[r].subs.empty() && !s.reg[r].pts.empty(); };
+    o.apply = [r](World& w, const WSnap&, CallInfo& ci) { ci.kind = K_REG_EXT; ci.reg = r; SubFrame sf; Channel ch; ch.name("grown"); ch.data(-3.25f); sf.channel(ch); w.R[r].analogs_nonConst().subframe(sf); };
+    return o;
+}
+// a COPY of a parameter stored in the object (e.g. a BYTE parameter that only a file can bring) is renamed and handed back
+inline Op opParamCopyOfStored(const std::string& srcGroup, const std::string& srcParam, const std::string& grp, const std::string& pname) {
+    Op o; o.name = "param(" + grp + ":" + pname + " <- copy of " + srcGroup + ":" + srcParam + ")"; o.cls = "param(copy)";
+    o.enabled = [srcGroup, srcParam](const World&, const WSnap& s) { const GSnap* g = s.o.group(srcGroup); return g && g->find(srcParam); };
+    o.apply = [srcGroup, srcParam, grp, pname](World& w, const WSnap&, CallInfo& ci) {
+        ci.kind = K_PARAM; ci.group = grp; Param p = w.c->parameters().group(srcGroup).parameter(srcParam); p.name(pname); ci.givenParam = snapParam(p); w.c->parameter(grp, p);
     };
     return o;
 }
